@@ -12,6 +12,7 @@
   placement (inline or allocated), every new length up to the 16-bit limit.
 -/
 import MptModel.Lemmas.Ident
+import MptModel.Lemmas.IdentLocate
 import MptModel.Spec.Ident
 namespace Mpt.C16
 open Mpt.Ident
@@ -143,6 +144,33 @@ example : (do
     pure ((compare a1 h1 (some ([0x61, 0x62, 0x63] ++ [0])) 3).toOption, (compare a1 h1 (some ([0x61, 0x62, 0x64] ++ [0])) 3).toOption,
           (compare a1 h1 (some ([0x61, 0x62] ++ [0])) 2).toOption)).toOption =
     some (some 0, some 3, some (-16)) := by decide
+
+/-- **node names** (`node_locate.c`): for an identifier that denotes the value `v`, the name test of
+    `mpt_node_locate` (default identifier type) answers exactly "`v` is the text `t`" — for names of any length,
+    stored inline or in a block -/
+theorem locate_match_iff_equal {id : Ident} {h : Heap} {k : Nat} {v : Val} (hd : Denotes id h k v) (t : List Byte) :
+    locateMatch id h t = .ok (cmpEq v t) :=
+  locateMatch_spec hd t
+
+/-- `mpt_node_locate` over a node list (position forms `pos > 0`, `pos < 0`, `pos = 0`) finds exactly the node the
+    search over the denoted values finds -/
+theorem locate_finds_equal_names {nodes : List (Ident × Nat × Val)} {h : Heap}
+    (hd : ∀ n, n ∈ nodes → Denotes n.1 h n.2.1 n.2.2) (start : Nat) (pos : Int) (t : List Byte) :
+    locate (nodes.map (·.1)) h start pos t = .ok (locateS (nodes.map (·.2.2)) start pos t) :=
+  locate_spec hd start pos t
+
+/-- the name test of `mpt_node_next` (C string argument) on an identifier holding the text `c` -/
+theorem next_match_iff_equal {id : Ident} {h : Heap} {k : Nat} {c : List Byte} (hh : Holds id h k utf8 (c ++ [0])) (b : List Byte)
+    (hb : ∀ x, x ∈ b → x ≠ 0) :
+    nextMatch id h (some (b ++ [0])) = .ok (decide (b = c)) :=
+  nextMatch_text hh b hb
+
+example : (do
+    let a ← create 24
+    let (a1, h1, _) ← set a ⟨[]⟩ 0 (some (List.replicate 30 0x61 ++ [0])) 30
+    let b ← create 24
+    let (b1, h2, _) ← set b h1 1 (some ([0x61] ++ [0])) 1
+    locate [a1, b1, a1] h2 0 2 (List.replicate 30 0x61)).toOption = some (some 2) := by decide
 
 /- ------------------------------------------------------------------------------------------------
    heap_discipline
